@@ -1,10 +1,12 @@
 (* C04 - run outcome and lifecycle handlers match what happened.
    This file holds nothing but the property theorems (closed by `exact`) and Print Assumptions.
-   Model: Sched/Model.v (`overall` mirrors Scheduler.Status clause by clause, HBegin/HStart/... mirror scheduler.go:228-258),
-   Agent/Run.v.  Proofs: Sched/ProofsStop.v, Agent/RunProofs.v.  Witnesses: Sched/Examples2.v.  Tie to the code:
-   tools/props/C04.py (power-set trace validation of the real scheduler incl. stop requests, every handler subset).
-   Premises: donech c = true (Schedule is given a done channel, as the agent always does), norepeat c; the outcome
-   theorems are stated without DAG timeout (timeouts: C05).  Node teardown is modelled as infallible. *)
+   Model: Sched/Model.v (`overall` mirrors Scheduler.Status clause by clause - incl. the decided outcome of fix 08917f8 -,
+   HBegin/HStart/... mirror scheduler.go:258-300), Agent/Run.v.  Proofs: Sched/ProofsStop.v, Agent/RunProofs.v.
+   Examples: Sched/Examples2.v.  Tie to the code: tools/props/C04.py (power-set trace validation of the real scheduler
+   incl. stop requests at every visible event index, every subset of handlers).
+   Premises: donech c = true (Schedule is given a done channel, as the agent always does), norepeat c (no repeatPolicy
+   step); C04_finished_iff / C04_failed_iff are stated for runs without DAG timeout (a timed-out run is labelled failed
+   by decision, DESIGN.md section 6; C05).  Node teardown (log flush) is modelled as infallible. *)
 From Coq Require Import List.
 Import ListNotations.
 From BD.Agent Require Import Run RunProofs.
@@ -26,20 +28,29 @@ Theorem C04_failed_iff : forall c : cfg, donech c = true -> norepeat c ->
 Proof. exact overall_failed_iff. Qed.
 Print Assumptions C04_failed_iff.
 
-(* canceled iff a stop was requested and not every step is finished or skipped ("stopped before completing"). *)
-Theorem C04_canceled_iff : forall (c : cfg) s,
-  overall c s = OCancel <-> (canceled s = true /\ is_succeed c s = false).
+(* canceled iff a stop was requested and not every step is finished or skipped ("stopped before completing") - as long
+   as the outcome is not yet decided, i.e. up to the choice of the handlers. *)
+Theorem C04_canceled_iff : forall (c : cfg) s, decided s = None ->
+  (overall c s = OCancel <-> (canceled s = true /\ is_succeed c s = false)).
 Proof. exact overall_canceled_iff. Qed.
 Print Assumptions C04_canceled_iff.
 
-(* The handlers: in every execution ls1 ++ HBegin :: ls2 that reaches Done (no dry run, no timeout): no handler starts
-   before HBegin; after HBegin no label of the scheduling loop or of a step worker occurs (every step has ended: at
-   HBegin every worker is gone); and the handlers started are, in this order and each once, exactly the configured
-   ones among [handler of the outcome at HBegin; onExit] - onExit last. *)
+(* "Finished" means completed - in EVERY reachable state, stopped run or not: a step reported finished did run and its
+   last attempt succeeded.  (False before fix ac08004 - F5c.) *)
+Theorem C04_finished_means_ran : forall c : cfg, donech c = true -> norepeat c ->
+  forall s, Reach c s -> dry c = false ->
+  forall i, st (nd s i) = NSuccess -> exists fs, outs (nd s i) = true :: fs.
+Proof. exact finished_means_ran. Qed.
+Print Assumptions C04_finished_means_ran.
+
+(* The handlers: in every execution ls1 ++ HBegin :: ls2 that reaches Done (not a dry run) - with or without stop
+   requests, with or without timeout: no handler starts before HBegin; after HBegin no label of the scheduling loop or
+   of a step worker occurs (every step has ended: at HBegin every worker is gone); and the handlers started are, in
+   this order and each once, exactly the configured ones among [handler of the outcome at HBegin; onExit] - onExit last. *)
 Theorem C04_handlers : forall c : cfg, donech c = true -> norepeat c ->
   forall ls1 ls2 s1 s2 s3,
   run c (init c) ls1 = Some s1 -> step c s1 HBegin = Some s2 -> run c s2 ls2 = Some s3 ->
-  pc s3 = LDone -> dry c = false -> timedout s3 = false ->
+  pc s3 = LDone -> dry c = false ->
   hstarts ls1 = [] /\ hstarts ls2 = handlers_for c s1 /\
   forallb (fun l => negb (is_node_label l)) ls2 = true /\ gone c s1.
 Proof. exact handlers_trace. Qed.
@@ -50,6 +61,15 @@ Theorem C04_handlers_for_outcome : forall (c : cfg) s, exists x, handlers_for c 
 Proof. exact handlers_for_shape. Qed.
 Print Assumptions C04_handlers_for_outcome.
 
+(* The outcome reported once the run is over (what the agent persists) is the outcome the handlers ran for - whatever
+   arrives in between, a stop request included.  (False before fix 08917f8 - F4a.) *)
+Theorem C04_outcome_stable : forall c : cfg, donech c = true -> norepeat c ->
+  forall ls1 ls2 s1 s2 s3,
+  run c (init c) ls1 = Some s1 -> step c s1 HBegin = Some s2 -> run c s2 ls2 = Some s3 ->
+  overall c s3 = overall c s1.
+Proof. exact outcome_stable. Qed.
+Print Assumptions C04_outcome_stable.
+
 (* If the DAG's own preconditions are unmet the agent does nothing but build the graph, evaluate them and cancel:
    no step, no handler, no probe, no history. *)
 Theorem C04_dag_precondition : forall e : env, e_gaccept e = true -> e_has_pre e = true -> e_pre_ok e = false ->
@@ -57,52 +77,30 @@ Theorem C04_dag_precondition : forall e : env, e_gaccept e = true -> e_has_pre e
 Proof. exact unmet_dag_precondition. Qed.
 Print Assumptions C04_dag_precondition.
 
-(* ---- the full statement "the reported outcome is the one the handlers ran for" is FALSE of the pinned code (F4a):
-        forall executions reaching Done, overall at Done = overall at HBegin.
-   Witness (also observed on the real scheduler, findings/C04-F4a-stop-during-handlers.json): the step fails, onFailure
-   is chosen and started, a stop request arrives while it runs; the run ends reported canceled. *)
-Theorem C04_stop_during_handlers_refuted :
+(* Non-vacuity and history.  (1) A stop of two executing steps: both end canceled, the outcome at HBegin is canceled,
+   the handlers are [onCancel; onExit], Done is reached. *)
+Example C04_nonvacuous :
+  (donech two_steps = true /\ norepeat two_steps) /\
+  exists s1 s2 s3, run two_steps (init two_steps) stop2_pre = Some s1 /\
+    step two_steps s1 HBegin = Some s2 /\ run two_steps s2 stop2_post = Some s3 /\
+    pc s3 = LDone /\ dry two_steps = false /\
+    overall two_steps s1 = OCancel /\ hstarts stop2_post = [HCancel; HExit] /\
+    map (fun i => st (nd s3 i)) [0; 1] = [NCancel; NCancel] /\ pc s1 = LExited.
+Proof. exact (conj stop2_ok stop2_witness). Qed.
+
+(* (2) The F4a scenario in the repaired model: the step fails, onFailure runs, a stop arrives while it runs; the run
+   stays reported failed. *)
+Example C04_stop_during_handlers_repaired :
   exists s1 s2 s3, run (one_step 1 false) (init (one_step 1 false)) f4a_pre = Some s1 /\
     step (one_step 1 false) s1 HBegin = Some s2 /\ run (one_step 1 false) s2 f4a_post = Some s3 /\
-    pc s3 = LDone /\ overall (one_step 1 false) s1 = OError /\ hstarts f4a_post = [HFailure; HExit] /\
-    overall (one_step 1 false) s3 = OCancel /\ timedout s3 = false.
-Proof. exact f4a_witness. Qed.
-Print Assumptions C04_stop_during_handlers_refuted.
+    pc s3 = LDone /\ canceled s3 = true /\ overall (one_step 1 false) s1 = OError /\ hstarts f4a_post = [HFailure; HExit] /\
+    overall (one_step 1 false) s3 = OError.
+Proof. exact f4a_repaired. Qed.
 
-(* Strongest true statement: if no stop request arrives between the choice of the handlers and Done (the cancel flag
-   is the same at both ends - decidable on the execution), the outcome at Done is the outcome the handlers ran for. *)
-Theorem C04_outcome_stable_partial : forall c : cfg, donech c = true -> norepeat c ->
-  forall ls1 ls2 s1 s2 s3,
-  run c (init c) ls1 = Some s1 -> step c s1 HBegin = Some s2 -> run c s2 ls2 = Some s3 ->
-  canceled s3 = canceled s1 -> overall c s3 = overall c s1.
-Proof. exact outcome_stable_partial. Qed.
-Print Assumptions C04_outcome_stable_partial.
-
-(* "Succeeded" means completed - also in a stopped run: in EVERY reachable state a step reported finished did run and its
-   last attempt succeeded; so by C04_finished_iff "reported finished" means every step really completed or was skipped.
-   (False of the code before fix ac08004 - F5c: a step the loop had committed when the stop arrived was launched
-   afterwards, skipped its command and was reported finished, the run finished, onSuccess ran.) *)
-Theorem C04_finished_means_ran : forall c : cfg, donech c = true -> norepeat c ->
-  forall s, Reach c s -> dry c = false ->
-  forall i, st (nd s i) = NSuccess -> exists fs, outs (nd s i) = true :: fs.
-Proof. exact finished_means_ran. Qed.
-Print Assumptions C04_finished_means_ran.
-
-(* the F5c scenario in the repaired model: the committed step is launched after the stop, never runs, ends canceled;
-   the run is canceled; onCancel then onExit *)
+(* (3) The F5c scenario in the repaired model: the step the loop had committed when the stop arrived is launched
+   afterwards, never runs, ends canceled; the run is canceled; onCancel then onExit. *)
 Example C04_committed_step_canceled_repaired :
   exists s, run (one_step 1 false) (init (one_step 1 false)) f5c_exec = Some s /\ pc s = LDone /\
     canceled s = true /\ st (nd s 0) = NCancel /\ att (nd s 0) = 0 /\ dry (one_step 1 false) = false /\
     overall (one_step 1 false) s = OCancel /\ hstarts f5c_exec = [HCancel; HExit].
 Proof. exact f5c_repaired. Qed.
-
-(* Non-vacuity: a clean stop of two executing steps reaches every premise: both end canceled, the outcome at HBegin is
-   canceled, the handlers are [onCancel; onExit], the cancel flag does not change afterwards. *)
-Example C04_nonvacuous :
-  (donech two_steps = true /\ norepeat two_steps) /\
-  exists s1 s2 s3, run two_steps (init two_steps) stop2_pre = Some s1 /\
-    step two_steps s1 HBegin = Some s2 /\ run two_steps s2 stop2_post = Some s3 /\
-    pc s3 = LDone /\ dry two_steps = false /\ timedout s3 = false /\ canceled s3 = canceled s1 /\
-    overall two_steps s1 = OCancel /\ hstarts stop2_post = [HCancel; HExit] /\
-    map (fun i => st (nd s3 i)) [0; 1] = [NCancel; NCancel] /\ pc s1 = LExited.
-Proof. exact (conj stop2_ok stop2_witness). Qed.
